@@ -2577,8 +2577,9 @@ THEOREMS.update({
     "C04": ("Dirk.Props.C04", ["Dirk.Conc.C04_mutual_exclusion", "Dirk.Conc.C04_commit_atomic", "Dirk.Conc.C04_linearizable",
                                "Dirk.Conc.C04_real_time_order", "Dirk.C04_footprint_attest", "Dirk.C04_trace_is_protocol"]),
     "C15": ("Dirk.Props.C15", ["Dirk.Conc.C15_progress", "Dirk.Conc.C15_measure", "Dirk.Conc.C15_complete", "Dirk.Conc.C15_needs_global"]),
-    "C08": ("Dirk.Props.C08", ["Dirk.C08_batch_pointwise", "Dirk.C08_leaves_injective", "Dirk.C08_header_leaves_injective",
-                               "Dirk.C08_signed_root"]),
+    "C08": ("Dirk.Props.C08Bind", ["Dirk.C08_batch_pointwise", "Dirk.C08_leaves_injective", "Dirk.C08_header_leaves_injective",
+                                   "Dirk.C08_signed_root", "Dirk.C08_att_root_binds", "Dirk.C08_header_root_binds", "Dirk.C08_generic_root_binds",
+                                   "Dirk.C08_digest_length"]),
     "C09": ("Dirk.Props.C09", ["Dirk.C09_scatter_partition", "Dirk.C09_batch_eq_seq", "Dirk.C09_live_att_rule",
                                "Dirk.C09_live_prop_rule", "Dirk.C09_live_att", "Dirk.C09_live_prop"]),
     "C11": ("Dirk.Props.C11", ["Dirk.C11_codec_roundtrip", "Dirk.C11_restart", "Dirk.C11_import_export_same_decisions",
